@@ -10,6 +10,8 @@ pub enum RingKey {
 	Ed(rs::Ed25519KeyPair),
 	Ec(rs::EcdsaKeyPair),
 	Rsa(rs::RsaKeyPair, &'static dyn rs::RsaEncoding),
+	/// a key ring does not have (P-521): OpenSSL signs
+	Ossl(openssl::pkey::PKey<openssl::pkey::Private>, openssl::hash::MessageDigest),
 }
 
 pub struct RemoteRing {
@@ -39,6 +41,10 @@ impl RemoteKeyPair for RemoteRing {
 				let mut sig = vec![0; k.public().modulus_len()];
 				k.sign(*enc, &rng, msg, &mut sig).map_err(|_| Error::RemoteKeyError)?;
 				Ok(sig)
+			},
+			RingKey::Ossl(k, md) => {
+				let mut sg = openssl::sign::Signer::new(*md, k).map_err(|_| Error::RemoteKeyError)?;
+				sg.sign_oneshot_to_vec(msg).map_err(|_| Error::RemoteKeyError)
 			},
 		}
 	}
@@ -74,6 +80,21 @@ pub struct Remote {
 /// a fresh ring key for `alg` behind the `RemoteKeyPair` trait
 pub fn remote_key(alg: &'static SignatureAlgorithm, rsa_fixture: &[u8]) -> Remote {
 	let rng = SystemRandom::new();
+	#[cfg(feature = "aws")]
+	if alg == &PKCS_ECDSA_P521_SHA512 {
+		// ring has no P-521: an OpenSSL key behind the trait (the signature is the DER
+		// ECDSA-Sig-Value, in the long length form for this curve)
+		let group = openssl::ec::EcGroup::from_curve_name(openssl::nid::Nid::SECP521R1).unwrap();
+		let ec = openssl::ec::EcKey::generate(&group).unwrap();
+		let mut bn = openssl::bn::BigNumContext::new().unwrap();
+		let public = ec.public_key().to_bytes(&group, openssl::ec::PointConversionForm::UNCOMPRESSED, &mut bn).unwrap();
+		let pk = openssl::pkey::PKey::from_ec_key(ec).unwrap();
+		let pkcs8 = pk.private_key_to_pkcs8().unwrap();
+		let log = Arc::new(Mutex::new(Vec::new()));
+		let fail_at = Arc::new(AtomicI64::new(-1));
+		let remote = RemoteRing { key: RingKey::Ossl(pk, openssl::hash::MessageDigest::sha512()), alg, public, log: log.clone(), fail_at: fail_at.clone() };
+		return Remote { key_pair: KeyPair::from_remote(Box::new(remote)).unwrap(), log, fail_at, pkcs8 };
+	}
 	let (key, public, pkcs8) = if alg == &PKCS_ED25519 {
 		let doc = rs::Ed25519KeyPair::generate_pkcs8(&rng).unwrap();
 		let k = rs::Ed25519KeyPair::from_pkcs8(doc.as_ref()).unwrap();
